@@ -1255,6 +1255,7 @@ func (m *Nitro) LoadFromDisk(dir string, concurr int, callb ItemCallback) (*Snap
 
 				for shard := range wchan {
 					r := readers[shard]
+					var itms []*Item
 				loop:
 					for {
 						itm, err := r.ReadItem()
@@ -1266,8 +1267,23 @@ func (m *Nitro) LoadFromDisk(dir string, concurr int, callb ItemCallback) (*Snap
 						if itm == nil {
 							break loop
 						}
+						itms = append(itms, itm)
+					}
 
-						w := writers[id]
+					// Inserting hands the item bytes to the key comparator:
+					// verify the shard first, never compare unverified data.
+					if errors[shard] == nil && deltaChecksums[shard] != 0 &&
+						deltaChecksums[shard] != r.Checksum() {
+						errors[shard] = ErrCorruptSnapshot
+					}
+
+					w := writers[id]
+					for _, itm := range itms {
+						if errors[shard] != nil {
+							w.freeItem(itm)
+							continue
+						}
+
 						if n, success := w.store.Insert2(unsafe.Pointer(itm),
 							w.insCmp, w.existCmp, w.buf, w.rand.Float32, &w.slSts1); success {
 
